@@ -8,7 +8,7 @@ from .. import lib, shape
 from ..flow import Defs, call_name, norm
 from ..index import AnalysisError, walk_local
 from ..lib import cfg_of, defs_of, edge_leads_only_to_raise, live, nodes_with, witness
-from .C07 import _flow_into, _m, _reaches, _rm, exponent_sign_sets, plus_minus_sign_rewritten, tokenizer_helpers
+from .C07 import _alternatives, _flow_into, _m, _reaches, _rm, exponent_sign_sets, plus_minus_sign_rewritten, tokenizer_helpers
 from .C09 import interface_rule
 
 MO = "pint.facets.measurement.objects"
@@ -34,6 +34,36 @@ def _lt_zero(a, text=None):
     """`a` is `<e> < 0` or `0 > <e>`; returns the text of <e> (None if `a` has another shape or `text` is given and differs)."""
     b = _m(a, "_E < 0", "0 > _E")
     return b["_E"] if b is not None and (text is None or b["_E"] == text) else None
+
+
+def _simultaneous_bindings(f):
+    """[(statement, {name: value expression})] for every assignment of `f` that binds several names at once.  A tuple
+    right-hand side binds element-wise; a call of a private function of the same module that returns tuples binds, for
+    each of its `return (a, b, ...)`, the elements with the helper's parameters replaced by the call's arguments (a
+    "phase" helper extracted from the function must not hide what the names are bound to)."""
+    out = []
+    for a in walk_local(f.node):
+        if not (isinstance(a, ast.Assign) and len(a.targets) == 1 and isinstance(a.targets[0], (ast.Tuple, ast.List)) and all(isinstance(e, ast.Name) for e in a.targets[0].elts)):
+            continue
+        names = [e.id for e in a.targets[0].elts]
+        v = a.value
+        if isinstance(v, (ast.Tuple, ast.List)) and len(v.elts) == len(names):
+            out.append((a, dict(zip(names, v.elts))))
+        elif isinstance(v, ast.Call) and isinstance(v.func, ast.Name) and v.func.id.startswith("_") and v.func.id in f.module.functions and not v.keywords and not any(isinstance(x, ast.Starred) for x in v.args):
+            h = f.module.functions[v.func.id]
+            ps = [p.arg for p in h.node.args.args]
+            if len(ps) < len(v.args) or any(isinstance(x, ast.Name) and isinstance(x.ctx, ast.Store) and x.id in ps for x in ast.walk(h.node)):
+                out.append((a, {n: v for n in names}))      # parameters re-bound inside the helper: not looked through
+                continue
+            mapping = dict(zip(ps, v.args))
+            for r in shape.returns_of(h.node):
+                if isinstance(r.value, ast.Tuple) and len(r.value.elts) == len(names):
+                    out.append((a, {n: shape._subst(ast.parse(ast.unparse(e), mode="eval").body, mapping) for n, e in zip(names, r.value.elts)}))
+                else:
+                    out.append((a, {n: v for n in names}))
+        else:
+            out.append((a, {n: v for n in names}))
+    return out
 
 
 def run(ck, ix, tier):
@@ -83,7 +113,7 @@ def run(ck, ix, tier):
     # (an uncertain magnitude is kept: same random variable) and ufloat(value, error) otherwise - one call or two
     sup = [c for c in walk_local(fn) if isinstance(c, ast.Call) and isinstance(c.func, ast.Attribute) and c.func.attr == "__new__" and isinstance(c.func.value, ast.Call) and call_name(c.func.value) == "super"]
     ck.check(len(sup) >= 1 and all(len(c.args) == 3 and norm(c.args[0]) == "cls" for c in sup), "G-TAG", "Measurement.__new__|built-by-PlainQuantity.__new__", f.loc(), "super().__new__(cls, mag, units)", "the Measurement is no longer built by super().__new__(cls, magnitude, units)")
-    missing = lambda a_: isinstance(a_, ast.Compare) and isinstance(a_.ops[0], ast.Is) and sorted([norm(a_.left), norm(a_.comparators[0])]) == ["MISSING", "error"]
+    missing = lambda a_: isinstance(a_, ast.Compare) and isinstance(a_.ops[0], ast.Is) and sorted([shape.rnorm(a_.left, fn), shape.rnorm(a_.comparators[0], fn)]) == ["MISSING", "error"]
     vals = []
     for c in [c for c in sup if len(c.args) == 3]:
         magx, unitx = c.args[1], c.args[2]
@@ -95,16 +125,11 @@ def run(ck, ix, tier):
     # the value is only ever re-bound to the magnitude of the quantity it was given as: an uncertain number passed in is
     # kept as the SAME object (re-building it from nominal_value / std_dev makes an independent variable and loses every
     # correlation: m.to('cm') / m would no longer be exact)
-    rebinds = []
+    both = _simultaneous_bindings(f)
+    rebinds = [(a_, d_["value"]) for a_, d_ in both if "value" in d_ and norm(d_["value"]) != "value"]      # (bound to itself = kept)
     for a_ in walk_local(fn):
         if isinstance(a_, ast.Assign):
-            for t_ in a_.targets:
-                if isinstance(t_, ast.Name) and t_.id == "value":
-                    rebinds.append((a_, a_.value))
-                elif isinstance(t_, (ast.Tuple, ast.List)):
-                    for i_, e_ in enumerate(t_.elts):
-                        if isinstance(e_, ast.Name) and e_.id == "value":
-                            rebinds.append((a_, a_.value.elts[i_] if isinstance(a_.value, (ast.Tuple, ast.List)) and len(a_.value.elts) == len(t_.elts) else a_.value))
+            rebinds += [(a_, a_.value) for t_ in a_.targets if isinstance(t_, ast.Name) and t_.id == "value"]
         elif isinstance(a_, (ast.AugAssign, ast.AnnAssign)) and isinstance(a_.target, ast.Name) and a_.target.id == "value" and getattr(a_, "value", None) is not None:
             rebinds.append((a_, a_.value))
     for a_, v_ in rebinds:
@@ -120,8 +145,9 @@ def run(ck, ix, tier):
         if k in ("value", "ufloat(value, error)"):
             ck.check(shape.holds_at(st, fn, missing, k == "value"), "G-DOM", "Measurement.__new__|value-kept-only-when-no-error-given", f.loc(st), "value kept as magnitude exactly when no error was given",
                      "the value is used as magnitude although an error was given (the error would be dropped), or an uncertainty is built although none was given")
-    unp = [a for a in walk_local(fn) if isinstance(a, ast.Assign) and isinstance(a.targets[0], ast.Tuple) and [norm(e) for e in a.targets[0].elts] == ["value", "units"]]
-    ok = len(unp) == 1 and isinstance(unp[0].value, ast.Tuple) and [norm(e) for e in unp[0].value.elts] == ["value.magnitude", "value.units"]
+    # wherever `value` is re-bound together with `units`, they become the magnitude and the units of the quantity passed in
+    unp = [d_ for a_, d_ in both if "value" in d_ and "units" in d_ and norm(d_["value"]) != "value"]
+    ok = len(unp) == 1 and (norm(unp[0]["value"]), norm(unp[0]["units"])) == ("value.magnitude", "value.units")
     ck.check(ok, "G-TAG", "Measurement.__new__|quantity-value-unpacked", f.loc(), "a Quantity value is unpacked into magnitude and units", "a Quantity value is no longer unpacked into (magnitude, units)")
 
     # ------------------------------------------------------------ plus_minus
@@ -148,7 +174,7 @@ def run(ck, ix, tier):
         and dfp.roots(mc[0].args[0]) & {"self.magnitude", "self._magnitude", "self.m"} and not any(isinstance(x, ast.BinOp) for x in ast.walk(mc[0].args[0]))
     if ok:
         e_ = mc[0].args[1]
-        evals = {norm(v) for (v, k, st) in dfp.defs.get(e_.id, []) if v is not None} if isinstance(e_, ast.Name) else {norm(e_)}
+        evals = {norm(x) for (v, k, st) in dfp.defs.get(e_.id, []) if v is not None for x, _f in _alternatives(v, fn)} if isinstance(e_, ast.Name) else {norm(e_)}
         ok = isinstance(e_, ast.Name) and evals <= {"error", "error.to(self._units).magnitude", "error.to(self.units).magnitude", "error * abs(self.magnitude)", "abs(self.magnitude) * error"}
     ck.check(bool(ok), "G-TAG", "plus_minus|measurement-in-own-units", f.loc(mc[0]) if mc else f.loc(), "Measurement(own magnitude, error, own units)", f"plus_minus builds `{norm(mc[0]) if mc else '?'}` instead of Measurement(own magnitude, (converted/scaled) error, own units)")
     ci = ix.cls(MO, "Measurement")
